@@ -23,7 +23,7 @@ m = dict(version=1,
                        kind_free_text="VC generator for the real C kernels: clang JSON AST -> symbolic execution against sidecar contracts -> z3/cvc5"),
                   dict(name="symtrace", path="/verif/verif/symtrace.py", serves_properties=["C01", "C02", "C04", "C10", "C19"],
                        kind_free_text="the real numpy functions executed on symbolic scalars; resulting terms are the VCs"),
-                  dict(name="pyfront", path="/verif/verif/pyfront.py", serves_properties=["C03", "C15", "C16"],
+                  dict(name="pysym", path="/verif/verif/pysym.py", serves_properties=["C03", "C16"],
                        kind_free_text="python ast of numba / plain-loop functions -> same obligation form"),
                   dict(name="replay", path="/verif/verif/creplay.py", serves_properties=["C01", "C06", "C07", "C14", "C20"],
                        kind_free_text="counter-models and seeded inputs run on the freshly compiled real code (plain and ASan/UBSan)")],
